@@ -690,17 +690,46 @@ Definition guards_f : list (guard (fst_ * fcall)) := [
        match f_params s with Some p => negb (Nat.eqb n p) | None => false end end), FunctionExc)
 ].
 
-Record sst := mkS { so_base : nat; so_ops : list nat }.   (* len(_selects) of the base query / of each operand *)
-Inductive scall := SAdd (n : nat) | SRender.
+(* an operand of a set operation: a query (len(_selects)) or itself a chain  base OP o1 OP o2 ...
+   (_SetOperation._selects = base_query._selects) *)
+Inductive sop := SQ (n : nat) | SNest (base : nat) (ops : list sop).
+Definition sop_arity (o : sop) : nat := match o with SQ n => n | SNest b _ => b end.
+
+(* _SetOperation.get_sql does not raise:  for every operand, in order: operand.get_sql(...) (a nested chain runs
+   its own check there), then  if len(self.base_query._selects) != len(operand._selects): raise *)
+Fixpoint sop_renders (o : sop) : bool :=
+  match o with
+  | SQ _ => true
+  | SNest b ops =>
+      (fix go (l : list sop) : bool :=
+         match l with
+         | [] => true
+         | x :: r => if sop_renders x then (if Nat.eqb b (sop_arity x) then go r else false) else false
+         end) ops
+  end.
+
+Record sst := mkS { so_base : nat; so_ops : list sop }.   (* len(_selects) of the base query; the operands *)
+Inductive scall := SAdd (o : sop) | SRender.
 Definition step_s (s : sst) (c : scall) : res sst :=
   match c with
-  | SAdd n => Ok (mkS (so_base s) (so_ops s ++ [n]))
-  | SRender =>
-      (* for ... in self._set_operation: if len(base._selects) != len(query._selects): raise *)
-      fold_res (fun st n => if negb (Nat.eqb (so_base s) n) then Err SetOpExc else Ok st) s (so_ops s)
+  | SAdd o => Ok (mkS (so_base s) (so_ops s ++ [o]))
+  | SRender => if sop_renders (SNest (so_base s) (so_ops s)) then Ok s else Err SetOpExc
+  end.
+
+(* documented: all queries of a set operation select the same number of terms -- at every depth some operand's
+   arity differs from the arity of the chain it belongs to *)
+Fixpoint sop_mismatch (o : sop) : bool :=
+  match o with
+  | SQ _ => false
+  | SNest b ops =>
+      (fix go (l : list sop) : bool :=
+         match l with
+         | [] => false
+         | x :: r => sop_mismatch x || negb (Nat.eqb (sop_arity x) b) || go r
+         end) ops
   end.
 Definition guards_s : list (guard (sst * scall)) := [
-  ("set_operation_arity", (fun x => match x with (s, SRender) => existsb (fun n => negb (Nat.eqb n (so_base s))) (so_ops s) | _ => false end), SetOpExc)
+  ("set_operation_arity", (fun x => match x with (s, SRender) => sop_mismatch (SNest (so_base s) (so_ops s)) | _ => false end), SetOpExc)
 ].
 
 (* ========================================================================================== *)
